@@ -27,6 +27,13 @@ Step(ev) == \/ ev.e = "Handler" /\ Handler
             \/ ev.e = "SockOpen" /\ SockOpen(ev.a)
             \/ ev.e = "SockClose" /\ SockClose(ev.a)
             \/ ev.e = "SockIn" /\ SockIn(ev.a)
+            \/ ev.e = "RmSched" /\ RemoveSched(ev.a)
+            \/ ev.e = "BootInit" /\ BootInit(ev.a, ev.t)
+            \/ ev.e = "BootOpen" /\ BootOpen(ev.t, ev.a)
+            \/ ev.e = "BootEnd" /\ BootEnd(ev.a)
+            \/ ev.e = "BootClose" /\ BootClose(ev.a)
+            \/ ev.e = "BootIn" /\ BootIn(ev.a)
+            \/ ev.e = "U_Boot" /\ U_Boot /\ bsocks' = SetOf(ev.s)       \* bootstrap sockets open when unload() returned
             \/ ev.e = "UnloadStart" /\ UnloadStart
             \/ ev.e = "U_Tunnels" /\ U_Tunnels /\ socks' = SetOf(ev.s)   \* sockets open when unload() returned
             \/ ev.e = "U_Cache" /\ U_Cache
@@ -43,7 +50,8 @@ Stuck == l <= Len(Ev) /\ ~ENABLED TraceNext
 Report == /\ Stuck
           /\ PrintT(<<"C11REJECT", [tid |-> tid, l |-> l, phase |-> phase, sub |-> sub, tasks |-> tasks,
                                     dying |-> dying, socks |-> socks, caches |-> caches, tmShut |-> tmShut,
-                                    rcShut |-> rcShut, reach |-> Reach]>>)
+                                    rcShut |-> rcShut, reach |-> Reach, initing |-> initing,
+                                    bdying |-> bdying, held |-> held, bsocks |-> bsocks, rmPending |-> rmPending]>>)
           /\ l' = Len(Ev) + 2
           /\ UNCHANGED <<vars, tid>>
 
